@@ -78,6 +78,7 @@ let () = iter_lines (fun line ->
       let x = { x_save = z_of_int (int_of_string save); x_copynone = (cn = "1"); x_src = z_of_int (int_of_string src);
                 x_inst = z_of_int (int_of_string inst); x_got = (getb = "1") } in
       Printf.printf "xicc term=%d written=%d\n" (int_of_z (size_term x)) (int_of_z (icc_written x))
+  | [ "chunkmax"; prec ] -> Printf.printf "chunkmax %d\n" (int_of_z (chunk_max (z_of_int (int_of_string prec))))
   | "blk" :: px ->
       let px = zl (List.map int_of_string px) in
       let cs = il (block_coefs px) in
